@@ -701,7 +701,13 @@ func (bal *Balancer) balanceBlock(blkid arvados.SizedDigest, blk *BlockState) ba
 			if replProt < desired && slot.repl != nil && !protMnt[slot.mnt] {
 				unsafeToDelete[slot.repl.Mtime] = true
 				protMnt[slot.mnt] = true
-				if !protDev[slot.mnt.DeviceID] {
+				if bal.mountsByClass[class][slot.mnt] && !protDev[slot.mnt.DeviceID] {
+					// Only a replica on a mount of this
+					// storage class keeps the class
+					// replicated. Replicas elsewhere are
+					// protected too until enough in-class
+					// replicas have been found, but do
+					// not count.
 					replProt += slot.mnt.Replication
 				}
 				if slot.mnt.DeviceID != "" {
